@@ -68,6 +68,11 @@ def candidates():
                                                                 M.clDSC: mz(ER.NAN, ER.NAN, ER.NAN, ER.NAN)}, empty_list_std=ER.ZERO)
     groups = L["SegmentationClassGroups"]({"Vertebra": L["LabelGroup"]([1, 2]), "disc-1": L["LabelMergeGroup"]([3, 4]),
                                            "sacrum": L["LabelGroup"]([5], single_instance=True)})
+    # group names that YAML dialects read as something other than a string
+    groups_yaml = L["SegmentationClassGroups"]({"ON": L["LabelGroup"]([1]), "no": L["LabelGroup"]([2, 3]), "yes": L["LabelMergeGroup"]([4]),
+                                                "null": L["LabelGroup"]([5]), "1e3": L["LabelGroup"]([6]), "~": L["LabelGroup"]([7])})
+    groups_yaml2 = L["SegmentationClassGroups"]({"off": L["LabelGroup"]([1, 2]), "123": L["LabelGroup"]([3]), "true": L["LabelGroup"]([4]),
+                                                 "a: b": L["LabelGroup"]([5]), "#x": L["LabelGroup"]([6])})
     return {
         "NaiveThresholdMatching": (L["NaiveThresholdMatching"], {}, {"matching_metric": [M.DSC, M.ASSD], "matching_threshold": [0.0, 0.25, 1.0, 0],
                                                                       "allow_many_to_one": [True]}),
@@ -80,14 +85,14 @@ def candidates():
                                                        "listmetric_zeroTP_handling": [handler.listmetric_zeroTP_handling]}),
         "LabelGroup": (L["LabelGroup"], {"value_labels": [3]}, {"value_labels": [[1, 2, 7], [300]], "single_instance": [True]}),
         "LabelMergeGroup": (L["LabelMergeGroup"], {"value_labels": [3]}, {"value_labels": [[4, 5]], "single_instance": [True]}),
-        "SegmentationClassGroups": (L["SegmentationClassGroups"], {"groups": {"a": L["LabelGroup"]([1])}}, {"groups": [groups._SegmentationClassGroups__group_dictionary if hasattr(groups, "_SegmentationClassGroups__group_dictionary") else {"b": L["LabelGroup"]([2])}]}),
+        "SegmentationClassGroups": (L["SegmentationClassGroups"], {"groups": {"a": L["LabelGroup"]([1])}}, {"groups": [dict(groups.items()), dict(groups_yaml.items()), dict(groups_yaml2.items())]}),
         "Panoptica_Evaluator": (L["Panoptica_Evaluator"], {"instance_approximator": L["ConnectedComponentsInstanceApproximator"](),
                                                            "instance_matcher": L["NaiveThresholdMatching"]()},
                                 {"expected_input": [L["InputType"].SEMANTIC, L["InputType"].UNMATCHED_INSTANCE],
                                  "instance_approximator": [L["ConnectedComponentsInstanceApproximator"](L["CCABackend"].scipy)],
                                  "instance_matcher": [L["NaiveThresholdMatching"](M.DSC, 0.25, True), L["MaximizeMergeMatching"](M.ASSD, 1.5)],
                                  "edge_case_handler": [handler],
-                                 "segmentation_class_groups": [groups],
+                                 "segmentation_class_groups": [groups, groups_yaml, groups_yaml2],
                                  "instance_metrics": [[M.DSC, M.IOU], [M.IOU, M.ASSD, M.RVD]],
                                  "global_metrics": [[], [M.DSC, M.IOU, M.RVD]],
                                  "decision_metric": [M.IOU, M.ASSD],
